@@ -95,6 +95,30 @@ def spec_wg(tier):
         scen_keys=["src", "wts"], trace_timeout=1500)
 
 
+def spec_comutex(tier):
+    grid = []
+    pairs = [("a", "a"), ("ab", "ac"), ("sc", "hb"), ("tg", "ya"), ("cs", "cs"), ("b", "s")]
+    for o in ("00", "01", "10", "11"):
+        for w in ("1", "2"):
+            for p1, p2 in pairs:
+                grid.append({"opts": o, "workers": w, "p1": p1, "p2": p2})
+    for o in ("01", "10", "11"):
+        grid.append({"opts": o, "workers": "2", "p1": "a", "p2": "b", "p3": "c"})
+        grid.append({"opts": o, "workers": "2", "p1": "s", "p2": "a", "p3": "t"})
+    rand = [{"opts": o, "workers": "3", "p1": "abc", "p2": "sca", "p3": "tac"} for o in ("00", "01", "10", "11")]
+    rand += [{"opts": o, "workers": "2", "p1": "hbs", "p2": "gcy", "p3": "ab", "p4": "sc"} for o in ("10", "11")]
+    mc = [("CoMutex_MC.cfg", 8, 900, "CoMutex: 2 coroutines x 2 rounds, 6 form pairs, 4 option sets, 1-2 workers, all interleavings")]
+    if tier != "quick":
+        mc.append(("CoMutex_MC3.cfg", 12, 3000, "CoMutex: 3 coroutines, 4 option sets, 2 workers"))
+        mc.append(("CoMutex_Live.cfg", 4, 1800, "CoMutex: every request is eventually granted under weak fairness of the workers"))
+    return ConcSpec(
+        name="CoMutex", scenario="cm", grid=grid, inv_props={}, primary="C14",
+        mc_cfgs=mc, paths_cfg=None,
+        dfs_max=600 if tier == "quick" else 6000, preempt=2 if tier == "quick" else 3,
+        rand_execs=100 if tier == "quick" else 2000, rand_grid=rand,
+        scen_keys=["opts", "workers", "p1", "p2", "p3", "p4"], trace_timeout=1500)
+
+
 ALL_STRATS = ["all_none", "all_ff", "join_none", "join_ff"]
 ANY_STRATS = ["any_none", "any_ff", "any_lf"]
 
@@ -198,6 +222,15 @@ def c16(rep, tier, seed):
     rep.assumptions += ["sources: Done by a thread, attached / consumed futures, a bare event Set; waiters: Wait, WaitFor (+Wait "
                         "after a timeout), co_await inline / sticky / on an executor; at most one timed waiter per scenario; "
                         "Add only inside Attach / Consume while M holds its own unit (the documented usage rule); no Reset"]
+
+
+@check("C14")
+def c14(rep, tier, seed):
+    """coroutine Mutex: mutual exclusion, no lost wake-up, FIFO, visibility (CoMutex.tla)"""
+    run_conc(rep, spec_comutex(tier), tier, seed, {"C14"})
+    rep.assumptions += ["coroutines run on the harness pool (1-3 workers, FIFO queue, no visible operation of its own; its "
+                        "submit/take synchronisation is modelled as a release/acquire pair); UnlockOn / sticky unlock target "
+                        "the same pool; 2-4 coroutines x 1-3 rounds"]
 
 
 @check("C09")
